@@ -221,6 +221,11 @@ var reTmpls = []reTmpl{
 		func(v map[string]string) string { return "took 7 ms, code " + v["status"] }},
 	{`(?P<job>it's)>(b)`, []string{"job"}, map[string]string{"job": `^it's$`},
 		func(v map[string]string) string { return "<it's>b" }},
+	// groups that capture nothing ((?i), (?:...)) and an empty named group: since the repair regexp-noncapturing-group
+	{`(?i)(?P<level>[a-z]+) (?:took|in) (?P<status>\d+)`, []string{"level", "status"}, map[string]string{"level": `^[a-z]+$`, "status": `^\d+$`},
+		func(v map[string]string) string { return v["level"] + " took " + v["status"] }},
+	{`(?P<job>)x(?P<a>a+)`, []string{"job", "a"}, map[string]string{"a": `^a+$`},
+		func(v map[string]string) string { return "x" + v["a"] }},
 	{`(?P<level>[a-z]+):(?P<_x1>(?P<status>\d)\d*)`, []string{"level", "_x1", "status"}, map[string]string{"level": `^[a-z]+$`, "_x1": `^\d+$`},
 		func(v map[string]string) string { return v["level"] + ":" + v["_x1"] }},
 }
@@ -1246,7 +1251,7 @@ type ReCase struct {
 	GoOk bool `json:"go_ok"`
 }
 
-var reAtoms = []string{`\w+`, `\d+`, `[a-z]+`, `[A-Z]+`, `=`, ` `, `x`, `\.`, `\S+`, `:`}
+var reAtoms = []string{`\w+`, `\d+`, `[a-z]+`, `[A-Z]+`, `=`, ` `, `x`, `\.`, `\S+`, `:`, `(?:x|=)`, `(?i)`, `(?:\d+ )`}
 var reLines = []string{"a=1", "b=a x=2", "client 10.0.0.2 POST /", "k1=v1 k2=v2", "abc 123", "GET /x 200", "a:b c:d", "x.y=3", ""}
 
 // genRe builds an expression; nested says whether a NAMED group contains another capture group
